@@ -25,6 +25,10 @@ namespace sim
         // Schedule tape: every scheduling / fault decision is one small integer, 0 meaning "nothing unusual" (keep running
         // the current thread, no stall, no spurious or late wake-up). record_tape logs the decisions of a seeded run;
         // use_tape replays a (possibly edited) tape instead of the PRNG - beyond its end every decision is the default.
+        // instrumented build only (build.py --instr): mean number of engine function calls between two extra pre-emption
+        // points (0 = off). The runtime translation units are then compiled with -finstrument-functions and every function
+        // entry counts down; at zero the scheduler may switch threads *inside* engine code, between two interception points.
+        int instr_interval{0};
         std::vector<long long> tape;
         bool use_tape{false};
         bool record_tape{false};
@@ -33,7 +37,7 @@ namespace sim
     struct Stats
     {
         long long steps{0}, preemptions{0}, clock_jumps{0}, forced_timeouts{0}, spurious{0}, stalls{0}, late{0}, starved{0},
-            mutex_blocks{0}, cond_waits{0}, timed_waits{0}, notifies{0};
+            mutex_blocks{0}, cond_waits{0}, timed_waits{0}, notifies{0}, instr_points{0};
     };
 
     // ---- clock-only mode (single-threaded modes): a seeded simulated wall clock with stall / coarse faults
@@ -47,6 +51,7 @@ namespace sim
     bool in_sim();
     int self_id();
     void yield();
+    void instr_point();
     void sleep_us(long long d);
     long long now_us();
     long long seq();                                                   // global event sequence number (scheduler steps)
